@@ -34,6 +34,12 @@ pub struct SigPlan {
     pub text: String,
     /// how often get_sig is called in a row (allocator reuse between calls)
     pub repeat: u32,
+    /// spare capacity of the vector / string buffer beyond its length
+    #[serde(default)]
+    pub spare: u32,
+    /// the value was longer once and was truncated to its length (stale elements behind the end)
+    #[serde(default)]
+    pub shrunk: bool,
     /// additionally run a ProbMinHash3aSha over keys of this kind
     pub sha: Option<(ShaKey, usize, Vec<u64>)>,
 }
@@ -56,6 +62,19 @@ fn spec_bytes(p: &SigPlan) -> Vec<u8> {
     }
 }
 
+/// builds the vector the way long-lived buffers look in practice: spare capacity, stale elements behind the end
+fn build<T: Copy>(p: &SigPlan, conv: fn(u64) -> T, junk: T) -> Vec<T> {
+    let mut v: Vec<T> = Vec::with_capacity(p.vals.len() + p.spare as usize);
+    v.extend(p.vals.iter().map(|x| conv(*x)));
+    if p.shrunk {
+        for _ in 0..p.spare {
+            v.push(junk);
+        }
+        v.truncate(p.vals.len());
+    }
+    v
+}
+
 fn real_bytes(p: &SigPlan) -> Vec<u8> {
     let v0 = p.vals.first().copied().unwrap_or(0);
     match p.ty {
@@ -65,10 +84,18 @@ fn real_bytes(p: &SigPlan) -> Vec<u8> {
         SigTy::U64 => v0.get_sig(),
         SigTy::I16 => (v0 as i16).get_sig(),
         SigTy::I32 => (v0 as i32).get_sig(),
-        SigTy::Str => p.text.clone().get_sig(),
-        SigTy::VecU8 => p.vals.iter().map(|v| *v as u8).collect::<Vec<u8>>().get_sig(),
-        SigTy::VecU16 => p.vals.iter().map(|v| *v as u16).collect::<Vec<u16>>().get_sig(),
-        SigTy::VecU32 => p.vals.iter().map(|v| *v as u32).collect::<Vec<u32>>().get_sig(),
+        SigTy::Str => {
+            let mut s = String::with_capacity(p.text.len() + p.spare as usize);
+            s.push_str(&p.text);
+            if p.shrunk {
+                s.push_str("stale-tail-é");
+                s.truncate(p.text.len());
+            }
+            s.get_sig()
+        }
+        SigTy::VecU8 => build(p, |v| v as u8, 0xEFu8).get_sig(),
+        SigTy::VecU16 => build(p, |v| v as u16, 0xBEEFu16).get_sig(),
+        SigTy::VecU32 => build(p, |v| v as u32, 0xDEAD_BEEFu32).get_sig(),
     }
 }
 
@@ -131,12 +158,20 @@ impl Scenario for SigSc {
         } else {
             None
         };
-        SigPlan { ty, vals, text, repeat: rng.urange(1, 4) as u32, sha }
+        let spare = if rng.chance(0.5) { 0 } else { rng.log_range(1, 64) as u32 };
+        let shrunk = spare > 0 && rng.chance(0.5);
+        SigPlan { ty, vals, text, repeat: rng.urange(1, 4) as u32, spare, shrunk, sha }
     }
     fn execute(&self, plan: &SigPlan, ctx: &mut Ctx) -> Result<(), Violation> {
         let spec = spec_bytes(plan);
         ctx.sched.add(plan.ty as u64);
         ctx.sched.add(plan.vals.len() as u64);
+        if plan.spare > 0 {
+            ctx.count("fault:buffer-with-spare-capacity");
+        }
+        if plan.shrunk {
+            ctx.count("fault:stale-elements-behind-the-end");
+        }
         for v in plan.vals.iter().take(8) {
             ctx.sched.add(*v);
         }
@@ -203,6 +238,16 @@ impl Scenario for SigSc {
         if plan.repeat > 1 {
             let mut p = plan.clone();
             p.repeat = 1;
+            out.push(p);
+        }
+        if plan.shrunk {
+            let mut p = plan.clone();
+            p.shrunk = false;
+            out.push(p);
+        }
+        if plan.spare > 1 {
+            let mut p = plan.clone();
+            p.spare = 1;
             out.push(p);
         }
         if plan.vals.iter().any(|v| *v > 255) {
